@@ -149,7 +149,7 @@ def main():
         }],
         "checks": checks,
         "not_applicable": na,
-        "notes": "Every check: exit 0 held / exit 1 with VIOLATION lines / exit 3 INCONCLUSIVE (watchdog, harness error, nothing observed). VERIF_SEED selects the case list; case lists are pure functions of (property, tier, seed).",
+        "notes": "Every check: exit 0 held / exit 1 with VIOLATION lines / exit 3 INCONCLUSIVE (watchdog, harness error, nothing observed). VERIF_SEED selects the case list; case lists are pure functions of (property, tier, seed). Besides seeded random cases every workload sweeps the sizes of the collections it controls over a threshold list (2^k, 3*2^k, 10^k, each -1/0/+1) and mixes in rare boundary values (DESIGN.md 8.4). Calibration: tools/mutcheck.sh, tools/seedcheck.sh, tools/seedall.sh against /verif/mutants and the 80 independently seeded changes in /verif/seeded (results in seeded/RESULTS.md).",
     }
     with open(os.path.join(HERE, "MANIFEST.json"), "w") as f:
         json.dump(m, f, indent=1)
